@@ -439,6 +439,46 @@ pub fn c18(ctx: &mut Ctx) {
                 }
             }
         }
+        // errors of the conversions between packet types (by reference, by value, try_as): a mismatch must name the
+        // packet's own type as `actual` and the target's as `requested`
+        if let Ok(p) = Packet::parse(s) {
+            if let Some(v) = packet_variant_pt(&p) {
+                macro_rules! conv_err {
+                    ($T:ty, $pt:expr, $name:expr) => {
+                        if v != $pt {
+                            l.transitions += 3;
+                            let r = guard::catch(|| {
+                                let by_ref = <$T>::try_from(&p).err();
+                                let by_as = p.try_as::<$T>().err();
+                                let by_val = Packet::parse(s).ok().and_then(|q| <$T>::try_from(q).err());
+                                [("TryFrom<&Packet>", by_ref), ("Packet::try_as", by_as), ("TryFrom<Packet>", by_val)]
+                            });
+                            match r {
+                                Err(pi) => l.subject_panic(concat!("conversion:", $name), &pi, || hex_short(s)),
+                                Ok(errs) => {
+                                    for (how, e) in errs {
+                                        match e {
+                                            None => l.violation(concat!("conversion-to-another-type-succeeds:", $name), || hex_short(s), || format!("{} from a packet of type {}", how, v)),
+                                            Some(e) => {
+                                                any_err = true;
+                                                judge_error(l, concat!("conversion:", $name), s, &e, Some($pt), None, true);
+                                            }
+                                        }
+                                    }
+                                }
+                            }
+                        }
+                    };
+                }
+                conv_err!(SenderReport, 200, "SenderReport");
+                conv_err!(ReceiverReport, 201, "ReceiverReport");
+                conv_err!(Sdes, 202, "Sdes");
+                conv_err!(Bye, 203, "Bye");
+                conv_err!(App, 204, "App");
+                conv_err!(TransportFeedback, 205, "TransportFeedback");
+                conv_err!(PayloadFeedback, 206, "PayloadFeedback");
+            }
+        }
         l.transitions += 1;
         match guard::catch(|| ReportBlock::parse(s).map(|_| ())) {
             Err(pi) => l.subject_panic("parse:ReportBlock", &pi, || hex_short(s)),
